@@ -115,6 +115,12 @@ def corner_jobs(tier):
             n = 500000 if mode == "fast" else 420000
             J.append(E.mk_job(f"raw-after-move-d{d}-{mode}", opt=dict(dict=d, mode=mode, mf=mf, nice=32),
                               input=[E.seg("random", n, d)], trace=1))
+    # the chunk in progress at the window move is almost a full uncompressed chunk
+    for d in (4096, 60000, 65536):
+        for mode, mf in (("fast", "hc4"), ("normal", "bt4")):
+            o = dict(dict=d, mode=mode, mf=mf, nice=32)
+            bs, ka = real_window(dict(o))
+            J.append(straddle_job(f"raw-straddles-move-d{d}-{mode}", "lzma2", o, bs, ka, {}))
     # > 2 MiB uncompressed chunk limit (constant data), > 64 KiB compressed limit
     J.append(E.mk_job("ulimit-zeros", opt=f4k, input=[E.seg("zeros", (5 << 20) // (2 if quick else 1), 1)], trace=1))
     J.append(E.mk_job("ulimit-const-l1", writer="lzma1", header=True, end_marker=True, opt=f4k, input=[E.seg("const", 3 << 20, 5)], trace=1))
@@ -213,7 +219,7 @@ def concretise(bad, regime, tag):
     bufsize = c["Dict"] + pe + c["ExtraAfter"] + c["MatchMax"] + c["Reserve"]
     keep_after = c["ExtraAfter"] + c["MatchMax"]
     if bad == "copy_before_buffer":
-        return E.mk_job(f"cex-{tag}", writer=writer, opt=opt, input=[E.seg("random", bufsize + 3 * 65536, 1)], trace=1, **kw)
+        return straddle_job(f"cex-{tag}", writer, opt, bufsize, keep_after, kw)
     if bad == "pending_lookback_before_buffer":
         t = bufsize - keep_after + 51
         period = c["Dict"] - 36
@@ -228,6 +234,23 @@ def concretise(bad, regime, tag):
     t = bufsize - keep_after + 7
     return E.mk_job(f"cex-{tag}", writer=writer, opt=opt, input=[E.seg("mixed", t + 150000, 3)],
                     script=[dict(op="w", n=t // 2), dict(op="f"), dict(op="w", n=t - t // 2), dict(op="f"), dict(op="w", n=150000)], trace=1, **kw)
+
+
+def straddle_job(jid, writer, opt, bufsize, keep_after, kw):
+    """A flush places a chunk boundary so that the chunk in progress when the window moves is almost a full uncompressed
+    chunk (64 400 of the ~64 580 incompressible bytes that fit into one): the largest history copy_uncompressed can ask for right after a move."""
+    f = bufsize - keep_after - 64400
+    return E.mk_job(jid, writer=writer, opt=opt, input=[E.seg("text", f, 1), E.seg("random", 260000, 2)],
+                    script=[dict(op="w", n=f), dict(op="f"), dict(op="w", n=260000)], trace=1, **kw)
+
+
+def real_window(opt, writer="lzma2"):
+    c = {k: int(v) for k, v in E.real_consts(opt, writer).items() if re.fullmatch(r"-?\d+", v)}
+    pe = c["ModeBefore"]
+    if E.asbuilt()["PassExtra"] == "TRUE" and writer == "lzma2":
+        pe = max(pe, 65536 - c["Dict"])
+    keep_after = c["ExtraAfter"] + c["MatchMax"]
+    return c["Dict"] + pe + keep_after + c["Reserve"], keep_after
 
 
 def bad_of(r):
